@@ -3,10 +3,12 @@ package main
 import (
 	"fmt"
 	"strings"
+	"sync/atomic"
 	"time"
 
 	"github.com/0xReLogic/Helios/internal/config"
 	vh "github.com/0xReLogic/Helios/internal/verifh"
+	"github.com/0xReLogic/Helios/internal/vhook"
 )
 
 // C04: health state machine of one subject backend S in a 3-backend pool whose
@@ -63,6 +65,9 @@ type c04World struct {
 	probeN int      // probe log entries already fed to the model
 	R      int
 	nf     int // failing rounds so far
+	// probe accounting from the hook points
+	probeSent, probeOK atomic.Int64
+	unexplained        int64
 }
 
 func (w *c04World) ctx() string {
@@ -91,6 +96,26 @@ func (w *c04World) feedProbes() {
 			w.m.ejected, w.m.until, w.m.served = true, done.Add(c04Window), false
 			w.o.Obs("probe_fail_ejections", 1)
 		}
+	}
+}
+
+// probeAudit compares what Helios did with its probes (hook points lb.probe.send / lb.probe.ok) with what the backends
+// were scripted to answer: a probe that ended without success although every backend answered 200 was lost to the
+// virtual clock (it jumped while the answer was in flight), and the model cannot know about the ejection it caused.
+// Such a case is re-executed (vh.FlagAnomaly); a Helios change that makes good probes fail repeats on every attempt.
+func (w *c04World) probeAudit() {
+	vh.Settle()
+	scripted := int64(0)
+	for _, b := range w.bes {
+		for _, p := range b.ProbeLog() {
+			if p.Status != 200 {
+				scripted++
+			}
+		}
+	}
+	if un := w.probeSent.Load() - w.probeOK.Load() - scripted; un != w.unexplained {
+		vh.FlagAnomaly(fmt.Sprintf("c04: %d probes sent, %d succeeded, %d scripted to fail", w.probeSent.Load(), w.probeOK.Load(), scripted))
+		w.unexplained = un
 	}
 }
 
@@ -127,6 +152,7 @@ func (w *c04World) reports() bool {
 // round issues requests until S has served one (or R requests). kind: 'g' good, 'f' 5xx, 'u' unreachable.
 // Returns false after a violation.
 func (w *c04World) round(kind byte) bool {
+	hang := false
 	switch kind {
 	case 'f':
 		// failing answers come in several shapes; the shape is fixed by the position in the sequence
@@ -136,8 +162,10 @@ func (w *c04World) round(kind byte) bool {
 			{Status: 503, Headers: hd, Interim: []vh.Interim{{Code: 103, Headers: [][2]string{{"Link", "</x>"}}}}},
 			{Status: 502, Headers: hd, Framing: "chunked", Steps: []vh.Step{{Op: "write", N: 3000}}},
 			{Status: 599, Headers: hd, Steps: []vh.Step{{Op: "write", N: 10}}},
+			{HangFirst: true}, // no answer at all: Helios gives up after backend_read (2 s) and answers 502
 		}
 		w.S.Default = shapes[(w.step+len(w.seq)+w.nf)%len(shapes)]
+		hang = w.S.Default.HangFirst
 		w.nf++
 	case 'u':
 		w.S.Down()
@@ -154,14 +182,17 @@ func (w *c04World) round(kind byte) bool {
 			cl = w.sAddrs[i%len(w.sAddrs)]
 		}
 		t0 := time.Now()
+		seen := w.S.Count()
 		rec := w.sys.call("GET", "/c04", cl+":4000", nil, nil)
 		now := time.Now()
-		if vh.IsSim && vh.Took(now.Sub(t0)) {
+		by := servedBy(rec)
+		// a hung exchange at the subject: no answer, and the subject's journal shows the request arrived there
+		hung := hang && rec.Code == 502 && by == "" && w.S.Count() > seen
+		if vh.IsSim && vh.Took(now.Sub(t0)) && !hung {
 			vh.FlagAnomaly()
 		}
 		w.o.Obs("requests", 1)
-		by := servedBy(rec)
-		bySubject := by == w.S.Name || (kind == 'u' && rec.Code == 502)
+		bySubject := by == w.S.Name || (kind == 'u' && rec.Code == 502) || hung
 		if !bySubject {
 			if rec.Code != 200 {
 				w.o.Viol(w.sig("request-failed"), fmt.Sprintf("%s: request got %d %q while two backends are healthy", w.ctx(), rec.Code, trunc(rec.Body.String(), 60)), nil)
@@ -195,7 +226,12 @@ func (w *c04World) round(kind byte) bool {
 				w.o.Viol(w.sig("not-ejected-at-threshold"), fmt.Sprintf("%s: %d failed responses in a row (threshold %d) but %s is not ejected", w.ctx(), w.m.consec, thr, w.S.Name), nil)
 				return false
 			case w.m.cum < thr && ej:
-				w.o.Viol(w.sig("ejected-below-threshold"), fmt.Sprintf("%s: %s ejected after only %d failed responses (threshold %d)", w.ctx(), w.S.Name, w.m.cum, thr), nil)
+				var arr []string
+				for _, a := range w.S.Arrivals() {
+					arr = append(arr, fmt.Sprintf("%v %s %s from %s", time.Duration(a.At), a.Method, a.URI, a.Remote))
+				}
+				w.o.Viol(w.sig("ejected-below-threshold"), fmt.Sprintf("%s: %s ejected after only %d failed responses (threshold %d)", w.ctx(), w.S.Name, w.m.cum, thr),
+					map[string]any{"subject_arrivals": arr, "now": time.Duration(now.Sub(vh.Epoch)).String(), "request_took": now.Sub(t0).String(), "status": rec.Code, "body": trunc(rec.Body.String(), 80), "hang_shape": hang})
 				return false
 			}
 			if ej {
@@ -221,7 +257,8 @@ func (w *c04World) round(kind byte) bool {
 		if w.m.ejected {
 			what = fmt.Sprintf("unhealthy window ended %v ago", now.Sub(w.m.until))
 		}
-		w.o.Viol(w.sig("no-traffic-after-window"), fmt.Sprintf("%s: %s got none of %d requests aimed at it although it is eligible (%s)", w.ctx(), w.S.Name, w.R, what), nil)
+		infos, _ := listBackends(w.sys.admin())
+		w.o.Viol(w.sig("no-traffic-after-window"), fmt.Sprintf("%s: %s got none of %d requests aimed at it although it is eligible (%s)", w.ctx(), w.S.Name, w.R, what), map[string]any{"admin_listing": infos, "s_addrs": w.sAddrs, "now": time.Duration(now.Sub(vh.Epoch)).String()})
 		return false
 	}
 	w.o.Obs("rounds_without_traffic_while_ejected", 1)
@@ -248,7 +285,7 @@ func (w *c04World) toNextTick(extra time.Duration) {
 	time.Sleep(next - el + extra)
 }
 
-// c04Run executes one event sequence. Alphabet: g f u a W p q X.
+// c04Run executes one event sequence. Alphabet: g f u a W D p q X.
 func c04Run(e *vh.Env, c c04Case, seq string, bes []*vh.Backend, o *vh.Out) {
 	for _, b := range bes {
 		b.Reset()
@@ -260,6 +297,7 @@ func c04Run(e *vh.Env, c c04Case, seq string, bes []*vh.Backend, o *vh.Out) {
 	if c.Active {
 		cfg.HealthChecks.Active = config.ActiveHealthCheckConfig{Enabled: true, Interval: int(c04Interval / time.Second), Timeout: 2, Path: "/health"}
 	}
+	cfg.Server.Timeouts.BackendRead = 2
 	if err := cfg.Validate(); err != nil {
 		o.Inconcl("config: %v", err)
 		return
@@ -272,6 +310,17 @@ func c04Run(e *vh.Env, c c04Case, seq string, bes []*vh.Backend, o *vh.Out) {
 	}
 	defer sys.Close()
 	w := &c04World{c: c, o: o, sys: sys, bes: bes, S: bes[1], t0: t0, seq: seq, R: 2 * 3 * 3}
+	if c.Active {
+		vhook.Set(func(pt string) {
+			switch pt {
+			case "lb.probe.send":
+				w.probeSent.Add(1)
+			case "lb.probe.ok":
+				w.probeOK.Add(1)
+			}
+		})
+		defer vhook.Set(nil)
+	}
 	if c.Strategy == "least_connections" {
 		// S must be the minimum to be chosen at all: the two others carry one in-flight request each
 		for _, b := range sys.LB.VerifBackends() {
@@ -313,6 +362,13 @@ func c04Run(e *vh.Env, c c04Case, seq string, bes []*vh.Backend, o *vh.Out) {
 			w.S.SetProbe(500, 0)
 			w.toNextTick(200 * time.Millisecond)
 			w.S.SetProbe(200, 0)
+		case 'D':
+			// an operator tries to add a backend under the subject's name: refused, and nothing about the subject changes
+			if rec := adminDo(w.sys.admin(), "POST", "/v1/backends/add", "127.0.0.1:1", nil, fmt.Sprintf(`{"name":%q,"address":%q,"weight":1}`, w.S.Name, w.S.URL)); rec.Code < 400 {
+				o.Viol(w.sig("duplicate-add-accepted"), fmt.Sprintf("%s: adding a second backend named %s was answered %d", w.ctx(), w.S.Name, rec.Code), nil)
+				ok = false
+			}
+			o.Obs("duplicate_adds_refused", 1)
 		case 'X':
 			// a slow successful probe is in flight while failures eject the backend
 			w.S.SetProbe(200, 500*time.Millisecond)
@@ -328,6 +384,9 @@ func c04Run(e *vh.Env, c c04Case, seq string, bes []*vh.Backend, o *vh.Out) {
 			}
 		}
 		w.feedProbes()
+		if c.Active {
+			w.probeAudit()
+		}
 		if ok {
 			ok = w.reports()
 		}
@@ -338,7 +397,7 @@ func c04Run(e *vh.Env, c c04Case, seq string, bes []*vh.Backend, o *vh.Out) {
 }
 
 func c04Alphabet(c c04Case) string {
-	a := "gfuaW"
+	a := "gfuaWD"
 	if c.Active {
 		a += "pq"
 		if c.Passive {
@@ -408,7 +467,7 @@ func init() {
 			o.Eval(n)
 			o.DistinctCount(n)
 			if c.Strategy == "weighted_round_robin" && c.Thr == 2 && c.Active && c.Passive && c.Prefix == "f" {
-				o.Sample(map[string]any{"part": "histories", "case": c, "example_sequence": "ffWg", "alphabet": "g=good response f=5xx u=unreachable a=+3.3s W=+31.7s p=probe ok at next tick q=probe fails at next tick X=slow ok probe overlapping a passive ejection"})
+				o.Sample(map[string]any{"part": "histories", "case": c, "example_sequence": "ffWg", "alphabet": "g=good response f=5xx u=unreachable a=+3.3s W=+31.7s D=refused add under the same name p=probe ok at next tick q=probe fails at next tick X=slow ok probe overlapping a passive ejection"})
 			}
 		})
 
